@@ -2,6 +2,7 @@
 package main
 
 import (
+	"encoding/json"
 	"fmt"
 	"os"
 
@@ -36,6 +37,8 @@ func main() {
 		for _, n := range bfs.Names() {
 			fmt.Println("scenario", n)
 		}
+	case "replay":
+		os.Exit(replay(os.Args[2]))
 	case "check":
 		c, ok := reg.Get(os.Args[2])
 		if !ok {
@@ -46,4 +49,56 @@ func main() {
 		c.Run(run)
 		os.Exit(run.Finish())
 	}
+}
+
+// replay re-executes a recorded violation artefact without the explorer (BFS artefacts: scenario + op names).
+func replay(path string) int {
+	b, err := os.ReadFile(path)
+	if err != nil {
+		fmt.Println(err)
+		return 2
+	}
+	var a struct {
+		Property string `json:"property"`
+		Key      string `json:"key"`
+		Replay   struct {
+			Scenario string   `json:"scenario"`
+			Ops      []string `json:"ops"`
+		} `json:"replay"`
+	}
+	if err := json.Unmarshal(b, &a); err != nil {
+		fmt.Println(err)
+		return 2
+	}
+	if a.Replay.Scenario == "" {
+		fmt.Printf("artefact of %s (%s) records an enumerated case, not an operation history; re-run the check to re-evaluate it:\n%s\n", a.Property, a.Key, string(b))
+		return 0
+	}
+	sc := bfs.Make(a.Replay.Scenario)
+	if sc == nil {
+		fmt.Println("unknown scenario", a.Replay.Scenario)
+		return 2
+	}
+	names := sc.Ops()
+	sc.Reset()
+	rc := 0
+	for _, op := range a.Replay.Ops {
+		idx := -1
+		for i, n := range names {
+			if n == op {
+				idx = i
+			}
+		}
+		if idx < 0 {
+			fmt.Println("unknown op", op)
+			return 2
+		}
+		st := sc.Apply(idx)
+		fmt.Printf("%-40s accepted=%v obs=%s\n", op, st.Accepted, st.Obs)
+		for _, v := range st.Viol {
+			fmt.Printf("VIOLATION property=%s key=%s %s\n", v.Property, v.Key, v.What)
+			rc = 1
+		}
+	}
+	return rc
 }
